@@ -128,64 +128,88 @@ pub fn variance_of_constructors_rev() {
 const S_JOIN_A: [Ty; 4] = [T_INT, T_ARR_INT, T_ARR_ANY, T_NEVER];
 const S_JOIN_B: [Ty; 4] = [T_U_INT_FLOAT, T_FLOAT, T_ANY, T_ARR_INT];
 macro_rules! union_laws {
-    ($name:ident, $set:expr, $policy:expr) => {
+    ($name:ident, $set:expr, $policy:expr, $i:expr) => {
         #[kani::proof]
         #[kani::unwind(8)]
         #[kani::stub(alloc::fmt::format, crate::verif_common::stub_format)]
         pub fn $name() {
             set_order($policy);
             let ts: [Type; 4] = core::array::from_fn(|i| real($set[i]));
-            let mut i = 0;
-            while i < 4 {
-                let mut j = 0;
-                while j < 4 {
-                    let u = ts[i].clone() | ts[j].clone();
-                    assert!(ts[i].matches(&u) && ts[j].matches(&u));
-                    let mut v = ts[i].clone();
-                    v |= ts[j].clone();
-                    assert!(equiv(&u, &v));
-                    let w = ts[j].clone() | ts[i].clone();
-                    assert!(equiv(&u, &w)); // commutative up to equivalence
-                    let mut k = 0;
-                    while k < 4 {
-                        let both = ts[i].matches(&ts[k]) && ts[j].matches(&ts[k]);
-                        assert!(u.matches(&ts[k]) == both);
-                        k += 1;
-                    }
-                    j += 1;
+            let i: usize = $i;
+            let mut j = 0;
+            while j < 4 {
+                let u = ts[i].clone() | ts[j].clone();
+                assert!(ts[i].matches(&u) && ts[j].matches(&u));
+                let mut v = ts[i].clone();
+                v |= ts[j].clone();
+                assert!(equiv(&u, &v));
+                let w = ts[j].clone() | ts[i].clone();
+                assert!(equiv(&u, &w)); // commutative up to equivalence
+                let mut k = 0;
+                while k < 4 {
+                    let both = ts[i].matches(&ts[k]) && ts[j].matches(&ts[k]);
+                    assert!(u.matches(&ts[k]) == both);
+                    k += 1;
                 }
-                // idempotent
-                assert!(equiv(&(ts[i].clone() | ts[i].clone()), &ts[i]));
-                i += 1;
+                j += 1;
+            }
+            // idempotent
+            assert!(equiv(&(ts[i].clone() | ts[i].clone()), &ts[i]));
+            kani::cover!(true);
+        }
+    };
+}
+union_laws!(union_laws_a0_o0, S_JOIN_A, 0, 0);
+union_laws!(union_laws_a1_o0, S_JOIN_A, 0, 1);
+union_laws!(union_laws_a2_o0, S_JOIN_A, 0, 2);
+union_laws!(union_laws_a3_o0, S_JOIN_A, 0, 3);
+union_laws!(union_laws_a0_o1, S_JOIN_A, 1, 0);
+union_laws!(union_laws_a1_o1, S_JOIN_A, 1, 1);
+union_laws!(union_laws_a2_o1, S_JOIN_A, 1, 2);
+union_laws!(union_laws_a3_o1, S_JOIN_A, 1, 3);
+union_laws!(union_laws_b0_o0, S_JOIN_B, 0, 0);
+union_laws!(union_laws_b1_o0, S_JOIN_B, 0, 1);
+union_laws!(union_laws_b2_o0, S_JOIN_B, 0, 2);
+union_laws!(union_laws_b3_o0, S_JOIN_B, 0, 3);
+union_laws!(union_laws_b0_o1, S_JOIN_B, 1, 0);
+union_laws!(union_laws_b1_o1, S_JOIN_B, 1, 1);
+union_laws!(union_laws_b2_o1, S_JOIN_B, 1, 2);
+union_laws!(union_laws_b3_o1, S_JOIN_B, 1, 3);
+
+/// three-member unions whose earlier member is a supertype of a later one, every member stays below
+macro_rules! keeps_members {
+    ($name:ident, $policy:expr, $which:expr) => {
+        #[kani::proof]
+        #[kani::unwind(6)]
+        #[kani::stub(alloc::fmt::format, crate::verif_common::stub_format)]
+        pub fn $name() {
+            set_order($policy);
+            if $which == 0 {
+                let u1 = real(T_U_FLOAT_ARRANY_ARRINT);
+                assert!(real(T_FLOAT).matches(&u1) && real(T_ARR_ANY).matches(&u1) && real(T_ARR_INT).matches(&u1));
+            } else if $which == 1 {
+                let u2 = real(T_U_INT_ARRU_ARRINT);
+                assert!(real(T_INT).matches(&u2) && real(T_ARR_U_INT_FLOAT).matches(&u2) && real(T_ARR_INT).matches(&u2));
+            } else if $which == 2 {
+                let u3 = real_rev(T_U_INT_ARRU_ARRINT);
+                assert!(real(T_INT).matches(&u3) && real(T_ARR_U_INT_FLOAT).matches(&u3) && real(T_ARR_INT).matches(&u3));
+            } else {
+                let u2 = real(T_U_INT_ARRU_ARRINT);
+                let u3 = real_rev(T_U_INT_ARRU_ARRINT);
+                assert!(equiv(&u2, &u3));
             }
             kani::cover!(true);
         }
     };
 }
-union_laws!(union_laws_a_o0, S_JOIN_A, 0);
-union_laws!(union_laws_a_o1, S_JOIN_A, 1);
-union_laws!(union_laws_b_o0, S_JOIN_B, 0);
-union_laws!(union_laws_b_o1, S_JOIN_B, 1);
-
-/// three-member unions whose earlier member is a supertype of a later one, every member stays below
-fn keeps_members(policy: u8) {
-    set_order(policy);
-    let u1 = real(T_U_FLOAT_ARRANY_ARRINT);
-    assert!(real(T_FLOAT).matches(&u1) && real(T_ARR_ANY).matches(&u1) && real(T_ARR_INT).matches(&u1));
-    let u2 = real(T_U_INT_ARRU_ARRINT);
-    assert!(real(T_INT).matches(&u2) && real(T_ARR_U_INT_FLOAT).matches(&u2) && real(T_ARR_INT).matches(&u2));
-    let u3 = real_rev(T_U_INT_ARRU_ARRINT);
-    assert!(real(T_INT).matches(&u3) && real(T_ARR_U_INT_FLOAT).matches(&u3) && real(T_ARR_INT).matches(&u3));
-    assert!(equiv(&u2, &u3));
-}
-#[kani::proof]
-#[kani::unwind(6)]
-#[kani::stub(alloc::fmt::format, crate::verif_common::stub_format)]
-pub fn union_keeps_every_member_o0() { keeps_members(0); kani::cover!(true); }
-#[kani::proof]
-#[kani::unwind(6)]
-#[kani::stub(alloc::fmt::format, crate::verif_common::stub_format)]
-pub fn union_keeps_every_member_o1() { keeps_members(1); kani::cover!(true); }
+keeps_members!(union_keeps_every_member_0_o0, 0, 0);
+keeps_members!(union_keeps_every_member_1_o0, 0, 1);
+keeps_members!(union_keeps_every_member_2_o0, 0, 2);
+keeps_members!(union_keeps_every_member_3_o0, 0, 3);
+keeps_members!(union_keeps_every_member_0_o1, 1, 0);
+keeps_members!(union_keeps_every_member_1_o1, 1, 1);
+keeps_members!(union_keeps_every_member_2_o1, 1, 2);
+keeps_members!(union_keeps_every_member_3_o1, 1, 3);
 
 /// meet: conjoin(A, B) is a lower bound of A and of B
 const S_MEET: [Ty; 10] = [T_INT, T_ANY, T_U_INT_FLOAT, T_U_INT_STR, T_ARR_INT, T_ARR_U_INT_FLOAT, T_MUT_U_INT_FLOAT, T_MUT_U_INT_STR, T_FUN_U_INT, T_FUN_INT_U];
